@@ -64,7 +64,7 @@ def run(tier, seed, drv):
             SC.check_run(scn, run_, drv, res, monitors_on=("initial_tick", "device_order", "inputs_latest"), corr=("sim",), case_extra={"bus": b})
         if i % 3 == 1:
             # ... and from a configuration FILE through build_simulation, as one simulation or divided over several on one bus
-            fs = SC.as_config_file(scn, rng)
+            fs = SC.as_config_file(scn, rng, split=(i % 8 < 4))
             b = rng.choice(("sync", "held", "internal"))
             sd = rng.randrange(1 << 30)
             run_ = run_scenario(fs, bus=b, seed=sd)
